@@ -3,7 +3,7 @@
    N, Z, positive, nat stay the inductive types.  No Extract Constant. *)
 Require Import Sml.Base.Prelude Sml.Base.Crc Sml.Spec.Frame.
 Require Import Sml.Model.Decode Sml.Model.Encode Sml.Model.Frontends.
-Require Import Sml.Model.Parser Sml.Model.Reader Sml.Model.ArrayBuf.
+Require Import Sml.Model.Parser Sml.Model.Reader Sml.Model.ArrayBuf Sml.Digest.
 Require Import ExtrOcamlBasic.
 Extraction Language OCaml.
 Extraction "model.ml"
@@ -13,4 +13,5 @@ Extraction "model.ml"
   decode_fn di_new di_next di_all di_extra
   parse sp_new sp_next sp_calls tlf_parse
   rd_new sr_calls
-  ab_default ab_run ab_state ab_from_iter ab_eq ab_deref.
+  ab_default ab_run ab_state ab_from_iter ab_eq ab_deref
+  x_dec x_enc x_parse x_rd x_abuf.
